@@ -1,5 +1,6 @@
 import XcpProofs.FsDefs
 import XcpProofs.WalkMore
+import XcpProofs.MirrorExample
 /-! # C02 — exit 0 implies the destination tree mirrors the selected source tree
 
 Model slice: `targetBase` (cp's mapping rule), `walkEntry` (one operation per selected entry, by kind),
@@ -104,5 +105,33 @@ theorem failed_run_exits_nonzero_successful_run_ran_everything (fs : Fs) (c : Cf
     ((execOps fs c ops).exit = .ok → ∀ op ∈ ops, op ≠ .fail) ∧
     ((execOps fs c ops).exit = .ok ↔ AllSucceed c fs ops) :=
   ⟨execOps_ok_no_fail c ops fs, execOps_ok_iff c ops fs⟩
+
+/-- THE TREE INDUCTION, fresh target: copying a source tree `srcNode` (regular files, links, sockets/char devices/FIFOs,
+directories to any depth) found at the plain path `src` to a plain ABSENT target `tb` whose parent directory exists runs
+every emitted operation successfully and leaves EXACTLY the source tree at `tb` — every directory, file (content), link
+(text) and special node at the corresponding relative path — and changes nothing else anywhere (`Node.setAt`).
+Hypotheses shown satisfiable on a concrete tree: next theorem. -/
+theorem fresh_destination_mirrors_the_source (fs : Fs) (c : Cfg) (hd : c.dereference = false) (hn : c.noClobber = false)
+    (src tb : RPath) (srcNode : Node) (fuel : Nat)
+    (hwf : FsEq fs fs) (hroot : fs.root.isDir = true)
+    (hsrc : PlainTarget fs src) (hsn : fs.root.getAt src.names = some srcNode)
+    (hcop : srcNode.Copyable fuel)
+    (htb : PlainTarget fs tb) (hne : tb.names ≠ []) (habs : fs.root.getAt tb.names = none)
+    (hpar : ∃ es, fs.root.getAt tb.names.dropLast = some (.dir es))
+    (hun1 : ¬ src.names <+: tb.names) (hun2 : ¬ tb.names <+: src.names)
+    (hlen : src.names.length + fuel < 200 ∧ tb.names.length + fuel < 200) :
+    ∃ fs', execOps fs c (walkEntry fs c none src tb (fuel + 1) [] []) = ⟨.ok, fs'⟩ ∧
+      FsEq fs' { fs with root := fs.root.setAt tb.names srcNode } :=
+  mirror_fresh fs c hd hn src tb srcNode fuel hwf hroot hsrc hsn hcop htb hne habs hpar hun1 hun2 hlen
+
+/-- the hypotheses of `fresh_destination_mirrors_the_source` are met by a concrete tree with a file, a link, a
+sub-directory holding a file and a FIFO, copied into an existing empty directory -/
+theorem fresh_destination_hypotheses_are_satisfiable :
+    ∃ (fs : Fs) (c : Cfg) (src tb : RPath) (srcNode : Node) (fuel : Nat), c.dereference = false ∧ c.noClobber = false ∧
+      FsEq fs fs ∧ fs.root.isDir = true ∧ PlainTarget fs src ∧ fs.root.getAt src.names = some srcNode ∧
+      srcNode.Copyable fuel ∧ PlainTarget fs tb ∧ tb.names ≠ [] ∧ fs.root.getAt tb.names = none ∧
+      (∃ es, fs.root.getAt tb.names.dropLast = some (.dir es)) ∧ ¬ src.names <+: tb.names ∧ ¬ tb.names <+: src.names ∧
+      (src.names.length + fuel < 200 ∧ tb.names.length + fuel < 200) ∧ (∃ es, srcNode = .dir es ∧ 3 ≤ es.length) :=
+  MirrorExample.mirror_hypotheses_satisfiable
 
 end Xcp.C02
